@@ -496,6 +496,10 @@ func (t *Table) Put(input *types.PutItemInput) (map[string]*types.Item, error) {
 		}, t.getItem(key))
 
 		if !matched {
+			if checkErr := conditionalCheckErrorWithItem(input.ReturnValuesOnConditionCheckFailure, t.getItem(key)); checkErr != nil {
+				return item, checkErr
+			}
+
 			return item, types.NewError("ConditionalCheckFailedException", ErrConditionalRequestFailed.Error(), nil)
 		}
 	}
@@ -610,6 +614,10 @@ func (t *Table) Delete(input *types.DeleteItemInput) (map[string]*types.Item, er
 		}, t.getItem(key))
 
 		if !matched {
+			if checkErr := conditionalCheckErrorWithItem(input.ReturnValuesOnConditionCheckFailure, t.getItem(key)); checkErr != nil {
+				return nil, checkErr
+			}
+
 			return nil, types.NewError("ConditionalCheckFailedException", ErrConditionalRequestFailed.Error(), nil)
 		}
 	}
@@ -697,5 +705,18 @@ func (t *Table) IndexesDescription() ([]types.GlobalSecondaryIndexDescription, [
 func handleConditionalCheckError(input *types.UpdateItemInput, checkErr *types.ConditionalCheckFailedException, item map[string]*types.Item) {
 	if input.ReturnValuesOnConditionCheckFailure != nil && *input.ReturnValuesOnConditionCheckFailure == "ALL_OLD" {
 		checkErr.Item = item
+	}
+}
+
+// conditionalCheckErrorWithItem builds the conditional check failure that carries the stored item
+// when ReturnValuesOnConditionCheckFailure=ALL_OLD was requested; nil otherwise.
+func conditionalCheckErrorWithItem(returnValues *string, item map[string]*types.Item) error {
+	if returnValues == nil || *returnValues != "ALL_OLD" {
+		return nil
+	}
+
+	return &types.ConditionalCheckFailedException{
+		MessageText: ErrConditionalRequestFailed.Error(),
+		Item:        copyItem(item),
 	}
 }
